@@ -210,6 +210,7 @@ pub fn run(cfg: &Cfg, rep: &mut Rep) {
     let lats: Vec<Vec<i128>> = SCALES.iter().map(|s| gen::reading_lattice(*s, &w.leap)).collect();
     let nrand = cfg.budget(250_000);
     for k in 0..nrand {
+        let k = cfg.k(k, &mut r);
         let si = r.below(9) as usize;
         let ss = SCALES[si];
         let es = if r.chance(1, 2) { ss } else { gen::rand_scale(&mut r) };
@@ -230,6 +231,9 @@ pub fn run(cfg: &Cfg, rep: &mut Rep) {
             2 => 1000 + r.below(1000) as i128,
             _ => r.below(300) as i128,
         };
+        if cfg.fuzz {
+            n = n.min(48); // short series per input; the long-span stratum below keeps its length
+        }
         if k % 5 == 0 {
             // long spans: steps of days..years so that the series reaches centuries from its start
             // (offsets beyond 2^63 and 2^64 ns, spans that are whole centuries plus a multiple of the step)
